@@ -47,6 +47,11 @@ MUTANTS = [
      '            .attribute("name")\n            .unwrap()\n            .to_string();\n\n        let rust_name', "unwrap on input"),
     ("C13", "R2", DOC, "                if doc.resolving.iter().any(|name| name == xml_name) {\n                    return Err(WriterError::InvalidReference);\n                }\n", "", "visited guard removed"),
     ("C17", "R3", MAIN, 'with_extension("rs")', 'with_extension("txt")', "wrong default extension"),
+    ("C12", "R2", READER, "        for file in files.map.values() {\n            file.processed.store(false, std::sync::atomic::Ordering::SeqCst);\n        }\n", "", "flags not reset on entry"),
+    ("C12", "R2", READER, "        for file in files.map.values() {\n            file.processed.store(false, std::sync::atomic::Ordering::SeqCst);\n        }\n", "        content.processed.store(false, std::sync::atomic::Ordering::SeqCst);\n", "only the start file's flag is reset"),
+    ("C12", "R2", READER, "        for file in files.map.values() {\n            file.processed.store(false, std::sync::atomic::Ordering::SeqCst);\n        }\n\n        Self::read_xml_internal(content, start_with_file, files)", "        let doc = Self::read_xml_internal(content, start_with_file, files);\n        files.map.values().for_each(|file| file.processed.store(false, std::sync::atomic::Ordering::SeqCst));\n        doc", "flags reset after the read instead of before (an early error leaves them set)"),
+    ("C17", "R5", UTILS, "Some(parent) if !parent.as_os_str().is_empty() => parent,", "Some(parent) => parent,", "empty-parent guard removed"),
+    ("C17", "R5", UTILS, '    let parent = match current_file.parent() {\n        Some(parent) if !parent.as_os_str().is_empty() => parent,\n        _ => Path::new("."),\n    };', '    let parent = current_file.parent().unwrap_or_else(|| Path::new("."));', "parent() with a fallback for None only"),
     ("C17", "R3", MAIN, "|f| Path::new(f).to_path_buf());", '|f| Path::new(f).with_extension("rs"));', "--output path gets its extension replaced"),
     ("C17", "R3", MAIN, 'let output_file = to_file_name.map_or_else(|| from_file_path.with_extension("rs"), |f| Path::new(f).to_path_buf());',
      'let output_file = match to_file_name {\n        Some(f) if f.ends_with(".rs") => Path::new(f).to_path_buf(),\n        _ => from_file_path.with_extension("rs"),\n    };', "--output ignored unless it ends in .rs"),
